@@ -1099,4 +1099,20 @@ Section Main.
       change ([KRaw w0] ++ cs ++ c1) with ([KRaw w0] ++ (cs ++ c1)). rewrite map_app, (Hs0 (map seen (cs ++ c1))).
       exact IH.
   Qed.
+
+  Theorem wrap_is_variant_no_mixed t L st rp aft : nft t -> no_mixed t = true -> (0 <= w_off st)%Z ->
+    ws_variant t (merge_tree (seen (fst (wtag L st rp aft t)))).
+  Proof. intros Hn Hm Ho. exact (proj1 (wrap_variant_mut t Hn Hm L st rp aft Ho)). Qed.
+
+  (* parts A and B together, for the wrapping serializer, on trees without mixed content, for every oracle *)
+  Theorem wrap_transparent_no_mixed t L st rp aft : reduced t -> is_text t = false -> no_mixed t = true ->
+    (0 <= w_off st)%Z -> reduce_model (seen (fst (wtag L st rp aft t))) = t.
+  Proof.
+    intros Hr Ht Hm Ho. apply variant_erased_raw. apply wrap_is_variant_no_mixed; [apply reduced_nft; assumption|exact Hm|exact Ho].
+  Qed.
+
+  (* serialization from the root: NodeBase.serialize(format_options=FormatOptions(align, ind, width)) *)
+  Corollary wrap_root_transparent_no_mixed t sr aft : reduced t -> is_text t = false -> no_mixed t = true ->
+    reduce_model (seen (wrap_chunk ind align width req sr aft t)) = t.
+  Proof. intros Hr Ht Hm. unfold wrap_chunk. apply wrap_transparent_no_mixed; try assumption. cbn. lia. Qed.
 End Main.
